@@ -262,6 +262,11 @@ func (t DeployTransition) do(env *Environment) (err error) {
 
 			case <-time.After(deploymentTimeout):
 				wfStatus = wf.GetStatus()
+				if wfStatus == task.ACTIVE {
+					// status notifications are sent without blocking, so the one announcing ACTIVE can be lost
+					// while we are busy with the previous one: the workflow did become active in time
+					break WORKFLOW_ACTIVE_LOOP
+				}
 				inactiveTaskRoles := make([]string, 0)
 				undeployableTaskRoles := make([]string, 0)
 				workflow.LeafWalk(wf, func(role workflow.Role) {
